@@ -4,6 +4,7 @@ import (
 	"fmt"
 	"io"
 	"math/big"
+	"sort"
 	"time"
 
 	xmpp "gosrc.io/xmpp"
@@ -245,7 +246,7 @@ func runC19(e *Engine, g G, o RunOpt) RunInfo {
 	if sc.Huge {
 		for i := range sc.Ops {
 			if sc.Ops[i].Op == "wait" {
-				sc.Ops[i] = c19Op{Op: "query", N: i * 3}
+				sc.Ops[i] = c19Op{Op: "query", N: (i * 7) % 130}
 			}
 		}
 	}
@@ -274,6 +275,7 @@ func runC19(e *Engine, g G, o RunOpt) RunInfo {
 	e.Run(func() {
 		b := xmpp.NewVerifBackoff(sc.NoJitter, sc.Base, sc.Factor, sc.Cap)
 		attempt := 0
+		queried := map[int]time.Duration{}
 		prev := time.Duration(-1)
 		for i, op := range sc.Ops {
 			switch op.Op {
@@ -312,6 +314,23 @@ func runC19(e *Engine, g G, o RunOpt) RunInfo {
 					e.Violate("C19", "not-min-cap-exp:"+op.Op, "attempt %d without jitter: delay %v, min(cap, base*factor^n) = %v (base %d factor %d cap %d)", n, d, refD, effBase, effFactor, effCap)
 				case !sc.NoJitter && d > refD:
 					e.Violate("C19", "jitter-above-exp:"+op.Op, "attempt %d with jitter: delay %v above min(cap, base*factor^n) = %v", n, d, refD)
+				}
+				if op.Op == "query" && sc.NoJitter {
+					// "... and is therefore non-decreasing in n": also where the value itself can no
+					// longer be represented and only saturation is possible
+					qns := make([]int, 0, len(queried))
+					for qn := range queried {
+						qns = append(qns, qn)
+					}
+					sort.Ints(qns)
+					for _, qn := range qns {
+						qd := queried[qn]
+						if (qn < n && qd > d) || (qn > n && qd < d) {
+							e.Violate("C19", "not-monotone:query", "without jitter: attempt %d -> %v but attempt %d -> %v (base %d factor %d cap %d)", qn, qd, n, d, effBase, effFactor, effCap)
+							break
+						}
+					}
+					queried[n] = d
 				}
 				if op.Op == "wait" && sc.NoJitter {
 					if prev >= 0 && d < prev {
